@@ -6,15 +6,20 @@ Definition model (p : input) : obs :=
   mkObs (r_events r) (r_stop r) (r_raised r) (r_log r) (r_unrun r) (r_pending r)
         (list_eqb Nat.eqb (r_observers r) (initial_observers p)) (r_cleanups_left r).
 
+(* what the statement pins down.  It is silent about what propagates out of run() (that is C01's
+   KeyboardInterrupt clause) and about the cleanups that stay registered (after a cut nothing is claimed;
+   otherwise the stage log already shows every cleanup running exactly once): alpha forgets both, so a
+   change confined to them is not reported against C14 *)
+Definition alpha (o : obs) : obs :=
+  mkObs (o_events o) (o_stop o) None (o_log o) (o_unrun o) (o_pending o) (o_observers_same o) 0.
+
 Definition obs_eqb (a b : obs) : bool :=
   list_eqb ev_eqb (o_events a) (o_events b)
   && Bool.eqb (o_stop a) (o_stop b)
-  && option_eqb cls_eqb (o_raised a) (o_raised b)
   && log_eqb (o_log a) (o_log b)
   && Nat.eqb (o_unrun a) (o_unrun b)
   && Nat.eqb (o_pending a) (o_pending b)
-  && Bool.eqb (o_observers_same a) (o_observers_same b)
-  && Nat.eqb (o_cleanups_left a) (o_cleanups_left b).
+  && Bool.eqb (o_observers_same a) (o_observers_same b).
 
 Definition report := @report input obs model obs_eqb spec_okb findings.
 Definition model_at := @model_at input obs model spec_okb.
